@@ -84,6 +84,15 @@ Theorem path_no_merge : forall row p1 p2, In row rows -> p1 <> [] -> p2 <> [] ->
 Proof. exact (emit_path_injective istart irest common extra rows c09_ident_classes_ok c09_quote_chars_ok). Qed.
 Print Assumptions path_no_merge.
 
+(* FULL STATEMENT for the qualified wildcard `t.*` (the one place where the star part of a path is emitted: the qualifier path
+   followed by .* ): the text lexes as the qualifier's identifier tokens, a dot and a star, and the qualifier is read back as
+   exactly its parts -- for every dialect row, folding behaviour as above and every non-empty qualifier without a star part *)
+Theorem qualified_star_roundtrip : forall row k parts,
+  In row rows -> (k = FoldUpper -> snd row = true) -> parts <> [] -> forallb (fun s => negb (is_star s)) parts = true ->
+  qualified_star_denotes k (snd (fst row)) (emit_qualified_star istart irest common (identd_of extra row) parts) = Some parts.
+Proof. exact (qualified_star_roundtrip_rows istart irest common extra rows c09_ident_classes_ok c09_quote_chars_ok). Qed.
+Print Assumptions qualified_star_roundtrip.
+
 Theorem bare_implies_casefold_fixpoint : forall s, valid_ident istart irest s = true -> lower_ascii s = s.
 Proof. exact (fun s => bare_casefold_fixpoint istart irest s c09_ident_classes_ok). Qed.
 Print Assumptions bare_implies_casefold_fixpoint.
@@ -368,6 +377,9 @@ Example c09_ex_path : emit_path istart irest common {| iq := 34; always_quoted :
 Proof. vm_compute. reflexivity. Qed.
 Example c09_ex_path_read : path_denotes FoldLower 34 [34;97;46;98;34; 46; 99; 46; 34;115;101;108;101;99;116;34] = Some [[97;46;98]; [99]; [115;101;108;101;99;116]].
 Proof. vm_compute. reflexivity. Qed.
+Example c09_ex_star : emit_qualified_star istart irest common {| iq := 34; always_quoted := false; extra_kw := [] |} [[99;46;100]] = [34;99;46;100;34; 46; 42]
+                      /\ qualified_star_denotes FoldLower 34 [34;99;46;100;34; 46; 42] = Some [[99;46;100]].       (* ''c.d''.* *)
+Proof. vm_compute. split; reflexivity. Qed.
 Example c09_ex_rows : find_dialect [115;113;108;105;116;101] rows = Some ([115;113;108;105;116;101], 34, false).
 Proof. vm_compute. reflexivity. Qed.
 Example c09_ex_dollar : emit {| iq := 34; always_quoted := false; extra_kw := [] |} [36; 97] = [34; 36; 97; 34].              (* $a is quoted *)
